@@ -152,6 +152,74 @@ func cmdRollReplay(f hx.Flags, r *hx.Result) {
 	}
 	r.NonTrivial(int64(len(sigs)))
 	log.VerifNow, log.VerifRoll = nil, nil
+	if !hx.Stopped() {
+		rollTwin(r, tmp)
+	}
+	log.VerifNow, log.VerifRoll = nil, nil
+}
+
+// rollTwin: two rolling appenders on one directory and file name (two loggers sharing a file, or the old and the new
+// configuration generation alive across a boundary).  Each write lands exactly once whichever of the two creates the
+// file of a new interval first: a rotation, like a start, appends to a file that is already there.
+func rollTwin(r *hx.Result, tmp string) {
+	dir := filepath.Join(tmp, "twin")
+	_ = os.MkdirAll(dir, 0o755)
+	defer os.RemoveAll(dir)
+	var mu sync.Mutex
+	now := time.Date(2033, 3, 3, 3, 3, 0, 0, time.UTC)
+	log.VerifNow = func(time.Time) time.Time { mu.Lock(); defer mu.Unlock(); return now }
+	log.VerifRoll = nil
+	mk := func() *log.RollingFileAppender {
+		return &log.RollingFileAppender{Layout: &log.TextLayout{}, FileDir: dir, FileName: "t.log",
+			Rotation: log.TimeRotation{Interval: 2 * time.Second}, MaxAge: 100000}
+	}
+	a, b := mk(), mk()
+	desc := map[string]any{"scenario": "two rolling appenders on one file name; writes 1,2 | boundary | 3 (A rotates) 4 (B rotates) | boundary | 5 (B rotates) 6 (A rotates)"}
+	ret, p := hx.Within(10*time.Second, func() {
+		if err := a.Start(); err != nil {
+			panic(err)
+		}
+		if err := b.Start(); err != nil {
+			panic(err)
+		}
+		w := func(app *log.RollingFileAppender, id int) { app.Write([]byte(fmt.Sprintf("W id=%d\n", id))) }
+		w(a, 1)
+		w(b, 2)
+		mu.Lock()
+		now = now.Add(2 * time.Second)
+		mu.Unlock()
+		w(a, 3)
+		w(b, 4)
+		mu.Lock()
+		now = now.Add(2 * time.Second)
+		mu.Unlock()
+		w(b, 5)
+		w(a, 6)
+		a.Stop()
+		b.Stop()
+	})
+	r.Eval(6)
+	if !ret || p != nil {
+		r.Violate("write-panic:rolling", desc, "twin scenario returned=%v panic=%v", ret, p)
+		return
+	}
+	seen := map[int64]int{}
+	ents, _ := os.ReadDir(dir)
+	for _, e := range ents {
+		bs, _ := os.ReadFile(filepath.Join(dir, e.Name()))
+		for _, line := range strings.Split(string(bs), "\n") {
+			if line != "" {
+				id, _ := sys.ParseLine([]byte(line))
+				seen[id]++
+			}
+		}
+	}
+	for id := int64(1); id <= 6; id++ {
+		if seen[id] != 1 {
+			r.Violate("write-lost", desc, "write %d occurs %d times in the directory (files: %d); every write lands exactly once", id, seen[id], len(ents))
+			return
+		}
+	}
 }
 
 func rollReplayOne(r *hx.Result, c *rrCase, dir string) {
